@@ -18,14 +18,40 @@ K_THOROUGH_ONLY = [
 ]
 
 PROPS = {
-    "C08": dict(
-        assumptions=[
-            "Kani/CBMC model of Rust MIR and of the allocator; unwinding assertions on",
-            "stack <= 4..8 words, memory <= 4 words (symbolic length and content); all operands any i64",
-            "Mul/Div/Mod functional result on operands |x| < 2^16 or boundary constants; error condition and sign rules on full 64 bit",
-        ],
-        outside=["stack/memory shapes above the stated bounds", "EqSet (engine M)"],
-    ),
+    "C01": dict(claim="Bounded symbolic checking of the predicate-graph scheduler: the real MIR of check_predicate_inner and every helper below it (parent map, Kahn levels, deferral, caching, node_edges, the byte-level effect scan) is executed by mirsym on symbolic graphs (1..3 nodes, <=2 edges quick / <=3 thorough, every edge_start and edge target any u16, post-read flag per node), both passes over a shared cache, with an uninterpreted node runner; each path is compared with the reference scheduling semantics (every node once, after all parents, inputs = parents' outputs ascending, pass assignment, verdict, failing indices, gas, data outputs; cyclic/malformed rejected unevaluated). Edge slicing (node_edges) is decided separately against its documented rule.",
+                outside=["graphs above the bound", "node evaluation (run_program) and the per-solution/set level are covered only through native replays", "dangling edge targets: only totality is asserted", "thread schedules (C02)"]),
+    "C03": dict(claim="Deferral half of the property: on the same symbolic graphs as C01 every node that depends on a post-state read (itself or an ancestor flagged) is evaluated only in the second pass and every other node exactly once in the first; the byte-level scan that sets the flag (bytes_contains_any) is decided against the parsed program on symbolic byte streams.",
+                outside=["the overlay semantics of read_or_fallback/next_key and the construction of the post-state map are not yet encoded", "graphs above the bound"]),
+    "C05": dict(claim="One inductive step per operation: every Stack/Pred/Alu/Memory/ParentMemory op from an arbitrary machine state within the bound returns Ok or a typed Err on every path - a feasible panic, arithmetic overflow, out-of-bounds index or unreachable! is reported (mirsym treats MIR assert terminators and std panics as first-class outcomes).",
+                outside=["control-flow, access, crypto, state-read and compute ops, and the exec loop, are not yet encoded here", "states above the bound; the 4096/10240 limits are reached only through symbolic operands, not through large states"]),
+    "C06": dict(claim="No feasible panic / allocation abort in the decoders for mutations and predicates, Predicate::node_edges, single-op and stream bytecode parsing, BytecodeMapped construction and the graph scheduler, on symbolic inputs within the stated bounds (word strings <=6, byte strings in 16 length classes <=76, byte streams of <=3 ops, graphs <=3 nodes incl. cyclic, dangling and malformed ones).",
+                outside=["read_or_fallback, check_set, predicate::check, check_contract not yet encoded", "inputs above the bounds"]),
+    "C08": dict(claim="Bounded symbolic checking of every Stack/Pred/Alu/Memory/ParentMemory op: the real MIR of essential-vm's step_op_* is executed symbolically from every stack of <=6 (thorough 9) and memory of <=4 (6) fully symbolic words and compared with a reference model written from asm.yml incl. the frame condition; the arithmetic kernels are additionally decided on the compiled code by Kani/CBMC.",
+                engine="mirsym+kani", technique="symbolic execution of rustc MIR with z3 (own executor) + Kani/CBMC proof harnesses",
+                outside=["stack/memory shapes above the stated bounds", "EqSet", "the i64 division identity a=q*d+r is decided by K on operands |a|<2^16,|d|<2^8 plus boundary constants; full width only for the error condition and sign rules"]),
+    "C13": dict(claim="The macro-generated codec of essential-asm, executed from MIR against an independent reading of asm.yml: Opcode::try_from for every byte value, single-op parsing of any byte string <=10 bytes (consumed length, big-endian Push immediate for all 2^64 values, NotEnoughBytes/InvalidOpcode), to_bytes(parse(b)) = consumed bytes, parse(to_bytes(op)) = op for every op, short-name constants, and from_bytes/to_bytes over streams of <=3 ops.",
+                outside=["streams longer than the bound rely on the single-step result (induction on the stream)", "the pinned opcode table comparison is done by the asm.yml reader at setup"]),
+    "C14": dict(claim="BytecodeMapped (generic code instantiated at Op = essential_asm::Op) on symbolic byte streams of <=2 ops quick / <=3 thorough, owned and borrowed containers: mapping succeeds exactly when parsing does, with the same error kind; op_indices, ops(), op(i) incl. out of range, bytecode(), from_iter(ops) and OpAccess::op_access agree pointwise with the parsed list.",
+                outside=["equal execution of the two program representations follows from pointwise equality of op_access (argument, not a query)"]),
+    "C15": dict(claim="bytes_contains_any on well-formed symbolic byte streams (Push immediates fully symbolic, so immediates containing opcode bytes are inside) for all 64 effect sets equals 'some parsed op has one of the effects'; analyze(ops) equals the union of per-op flags on <=3 ops drawn from all effectful ops, Push and an effect-free op.",
+                outside=["streams above the bound"]),
+    "C17": dict(claim="Partial: the predicate pre-image. encode_predicate has the documented layout, decode(encode(p)) = p (hence injective) and predicate_encoded_size equals the real length, for predicates of <=2 nodes / <=3 edges with every field symbolic.",
+                outside=["contract / solution-set addresses, order independence and the Address trait plumbing are not yet encoded", "SHA-256 and postcard are outside (foreign)"]),
+    "C18": dict(claim="Wire codecs: decode_mutations(encode_mutations(ms)) = ms with the documented layout and sizes (<=2 mutations, key/value <=2 words), decode_predicate(encode_predicate(p)) = p (<=2 nodes, <=3 edges, any edge_start incl. the leaf marker), decode_mutation equals the documented layout on every word string <=6, and node_edges returns exactly the documented sub-range.",
+                outside=["word/byte/hex conversions, Display/FromStr and serde round trips are not yet encoded", "derive-generated serde impls, serde_json and postcard are outside"]),
+}
+
+NOT_APPLICABLE = {
+    "C02": "thread-schedule independence of the rayon sections: Kani has no concurrency model and ICEs on rayon-reaching code; encoding rayon's work-stealing scheduler for the solver is out of reach; the 'equals the sequential evaluation' half is decided under C01 (DESIGN.md section 5)",
+    "C04": "not yet encoded (solution-set permutation invariance); see DESIGN.md section 4",
+    "C07": "not yet encoded (gas accounting of the exec loop and compute children)",
+    "C09": "not yet encoded (control flow / repeat)",
+    "C10": "not yet encoded (compute fork/join)",
+    "C11": "not yet encoded (state-read ops)",
+    "C12": "not yet encoded (access / crypto marshalling)",
+    "C16": "not yet encoded (validator limits)",
+    "C19": "not yet encoded (signature plumbing)",
+    "C20": "not yet encoded (lock)",
 }
 
 
